@@ -809,6 +809,11 @@ class ReadOnlyStore(ProxyStore):
     def makedir(self, key):
         raise ReadOnlyStoreException(key=key, store=self)
 
+    def openbin(self, key, mode="r", buffering=-1):
+        if mode not in ("r", "rb"):
+            raise ReadOnlyStoreException(key=key, store=self)
+        return self._store.openbin(key, mode, buffering)
+
     def __str__(self):
         return f"read only proxy of {self._store}"
 
